@@ -164,7 +164,7 @@ def has(spec, types):
 def run(res, replay=None):
     rng = random.Random(res.seed)
     res.rule = ('demography stream: random demographies over 1-3 populations written as nested dicts, constants, '
-                'event lists (all nine public event classes), add_event in random order, coincident dyadic times, '
+                'event lists (all nine public event classes), add_event in random order (with get_epoch look-ups interleaved between the additions in half of the cases), coincident dyadic times, '
                 'discretised piecewise-linear trajectories; the first 14 epochs compared field by field with the '
                 'Gallina epoch generator (exact; 1e-12 for discretised means); get_epoch/get_epochs at times on and '
                 'off boundaries compared with the SPEC rate_at; non-trivial = demography with at least two epochs; '
@@ -177,6 +177,11 @@ def run(res, replay=None):
     NE = 14
     lookups = [0.0, 0.125, 0.25, 0.3, 0.5, 0.75, 1.0, 1.25, 1.5, 2.0, 2.5, 3.0, 7.0]
     cases = [{'spec': s, 'n_epochs': NE, 'lookup': rng.sample(lookups, 6)} for s in specs]
+    if not replay:
+        for i, c in enumerate(cases):
+            if i % 2 == 0 and c['spec'].get('added_events'):
+                # epochs are looked up at the same times WHILE the demography is still being assembled with add_event
+                c['spec']['probe_times'] = list(c['lookup'])
     chunks = [cases[i::C.NCPU] for i in range(C.NCPU)]
     chunks = [c for c in chunks if c]
     outs = C.run_impl_parallel('demography.py', [{'cases': c} for c in chunks])
